@@ -230,6 +230,10 @@ Refines ==
 
 Safe == \A i \in Ids : Present(i) => IndexSafe(inst[i].kind, inst[i].impl)
 
+\* C04 at the level of the algorithm: the transcribed reset() re-creates exactly the state the transcribed new() creates
+\* (t = 0 only right after New / Reset, or in a clone / restored copy of such an instance)
+ResetToInit == \A i \in Ids : (Present(i) /\ inst[i].t = 0) => inst[i].impl = ImplInit(inst[i].kind, inst[i].p)
+
 \* C07: bounded oscillators stay in range whenever the formula is defined
 InRange ==
     \A i \in Ids : (Present(i) /\ ~inst[i].taint /\ inst[i].ro # <<>> /\ DocRange(inst[i].kind) # <<>>) =>
